@@ -10,6 +10,7 @@ def jsonOfVal : Val → Json
   | .int i => Json.num (JsonNumber.fromInt i)
   | .bool b => Json.bool b
   | .str s => Json.str s
+  | .rat q => Json.arr #[Json.num (JsonNumber.fromInt q.num), Json.num (JsonNumber.fromNat q.den)]
 
 /-- `{"op":"cc_sql","n":N,"edges":[[l,r,key],...],"thr":key|null}`: evaluates the *regenerated* SQL statements
 (Generated/CCSql.lean) with `Rel.eval` under the control flow of `Model/CCSql.lean`. -/
